@@ -8,7 +8,9 @@ package main
 //   empty          an empty stream without AddRoot: an error (there is nothing to archive)
 //   single-file    a stream of one regular file without AddRoot: the archive of that file
 //   addroot-dot    a stream that has its own "./" member + AddRoot   (recorded finding)
-//   rootless       members without a root and without AddRoot        (recorded finding)
+//   rootless       members without a root and without AddRoot: an error, or every member archived
+//   ungrouped      a member of a subdirectory written after the members that follow that
+//                  directory (tar -r): an error, or every member archived
 // library (desync.Tar over NewTarReader) and CLI must write the same bytes; the validator's
 // listing must equal the members of the stream (+ the synthetic root).
 
@@ -80,6 +82,28 @@ func c13CheckStream(a vh.Args, o *vh.Oracle, r *vh.Result, c *c13Case, id int) e
 		tb, emitted, err = c13BuildTarOpt(nodes, false, true)
 	case "addroot-dot":
 		tb, emitted, err = c13BuildTarOpt(nodes, false, false)
+	case "ungrouped":
+		// a member of a subdirectory comes after the members that follow that subdirectory
+		di := -1
+		for i := 1; i < len(nodes); i++ {
+			if len(nodes[i].Path) >= 2 && nodes[i].Type != "dir" && i < len(nodes)-1 && len(nodes[i+1].Path) > 0 {
+				// something must follow its directory: look for a later node outside that directory
+				dirp := strings.Join(nodes[i].Path[:len(nodes[i].Path)-1], "/")
+				for j := i + 1; j < len(nodes); j++ {
+					if !strings.HasPrefix(strings.Join(nodes[j].Path, "/")+"/", dirp+"/") {
+						di = i
+						break
+					}
+				}
+				if di >= 0 {
+					break
+				}
+			}
+		}
+		if di < 0 {
+			return nil // this tree has no such member
+		}
+		tb, emitted, err = c13BuildTarOpt(nodes, false, false, di)
 	case "empty-addroot", "empty":
 		nodes = []c13Node{{Type: "dir"}}
 		tb, emitted, err = c13BuildTarOpt(nodes, false, true)
@@ -148,6 +172,35 @@ func c13CheckStream(a vh.Args, o *vh.Oracle, r *vh.Result, c *c13Case, id int) e
 		}
 		return nil
 	}
+	if c.Source == "rootless" || c.Source == "ungrouped" {
+		// not a tree grouped by directory: an error is fine; success obliges the archive to hold
+		// every member of the stream
+		if (lerr == nil) != (rc == 0) {
+			r.Fail("corr", "corr:C13/cli-vs-library", fmt.Sprintf("%s: desync.Tar err=%v, `desync tar` exit %d", what, lerr, rc), c13Slim(c))
+		}
+		if lerr != nil {
+			return nil
+		}
+		if err := os.WriteFile(catar, lib, 0644); err != nil {
+			return err
+		}
+		out, _, err := c13Validate(catar, "--unsorted-ok")
+		if err != nil {
+			return err
+		}
+		bad := ""
+		if !out.OK {
+			bad = out.Errors[0].Msg
+		} else if ms := c13Compare(want, order, out.Nodes); len(ms) > 0 {
+			bad = fmt.Sprintf("%s (%d of %d nodes archived)", ms[0][1], len(out.Nodes), len(order))
+		}
+		if bad != "" {
+			d := *c
+			d.Detail = bad
+			r.Fail("predicate", "tarstream/members-after-root-dropped", what+": success is reported, but the archive does not hold the members of the stream: "+bad, &d)
+		}
+		return nil
+	}
 	if lerr != nil {
 		r.Fail("predicate", "stream/lib-error", fmt.Sprintf("%s: desync.Tar: %v", what, lerr), c13Slim(c))
 		return nil
@@ -169,7 +222,7 @@ func c13CheckStream(a vh.Args, o *vh.Oracle, r *vh.Result, c *c13Case, id int) e
 		return err
 	}
 	// the two recorded stream shapes get their own class
-	cls := map[string]string{"addroot-dot": "tarstream/addroot-dot-member", "rootless": "tarstream/members-after-root-dropped"}[c.Source]
+	cls := map[string]string{"addroot-dot": "tarstream/addroot-dot-member"}[c.Source]
 	if cls != "" {
 		bad := ""
 		if !out.OK {
@@ -232,7 +285,7 @@ func c13RunStreams(a vh.Args, o *vh.Oracle, r *vh.Result, rng *vh.Rand, thorough
 	if err := run(&c13Case{Source: "single-file", Nodes: []c13Node{f}}); err != nil {
 		return err
 	}
-	// recorded findings: one instance each per run
+	// a recorded finding, and the shapes Tar() has to refuse or archive completely
 	small := c13SmallTree(rng.Fork())
 	if len(small) > 2 {
 		if err := run(&c13Case{Source: "addroot-dot", AddRoot: true, Nodes: small}); err != nil {
@@ -241,7 +294,14 @@ func c13RunStreams(a vh.Args, o *vh.Oracle, r *vh.Result, rng *vh.Rand, thorough
 		if err := run(&c13Case{Source: "rootless", Nodes: c13FrontChild(small, false)}); err != nil {
 			return err
 		}
+		if err := run(&c13Case{Source: "rootless", Nodes: c13FrontChild(small, true)}); err != nil {
+			return err
+		}
+	}
+	for i := 0; i < n+1; i++ {
+		if err := run(&c13Case{Source: "ungrouped", Nodes: c13GenTree(rng.Fork(), 0, false, false)}); err != nil {
+			return err
+		}
 	}
 	return nil
 }
-
